@@ -65,3 +65,4 @@ func verifByteAt(b []byte, i int) byte
 func verifResultOwned(v any) bool
 func verifTraceLeaks(prefix string) int
 func verifTraceClass(class string)
+func verifBigHexDigits() []byte
